@@ -550,6 +550,62 @@ def _linear_values(dv, expr, at, depth, _seen=None):
     return [(None, 0, expr)]
 
 
+def linear_forms(dv, expr, at, depth=0, _seen=frozenset()):
+    """The integer expression at CFG node `at` as a list of alternatives (one per combination of reaching definitions), each
+    ({term text: coefficient}, constant); locals are followed through their definitions (kill-aware, see _linear_values), `len(<literal>)`
+    folds, everything else that is not + / - / a number is an opaque term.  None when there are too many alternatives."""
+    g = dv.cfg
+
+    def const(c):
+        return [({}, c)]
+    if isinstance(expr, ast.Constant) and isinstance(expr.value, int) and not isinstance(expr.value, bool):
+        return const(expr.value)
+    if isinstance(expr, ast.UnaryOp) and isinstance(expr.op, ast.USub):
+        sub = linear_forms(dv, expr.operand, at, depth, _seen)
+        return None if sub is None else [({k: -v for k, v in t.items()}, -c) for t, c in sub]
+    if isinstance(expr, ast.Call) and isinstance(expr.func, ast.Name) and expr.func.id == "len" and len(expr.args) == 1 \
+            and isinstance(expr.args[0], ast.Constant) and isinstance(expr.args[0].value, (str, bytes)):
+        return const(len(expr.args[0].value))
+    if isinstance(expr, ast.BinOp) and isinstance(expr.op, (ast.Add, ast.Sub)):
+        ls, rs = linear_forms(dv, expr.left, at, depth, _seen), linear_forms(dv, expr.right, at, depth, _seen)
+        if ls is None or rs is None or len(ls) * len(rs) > 16:
+            return None
+        sign = 1 if isinstance(expr.op, ast.Add) else -1
+        out = []
+        for lt, lc in ls:
+            for rt, rc in rs:
+                t = dict(lt)
+                for k, v in rt.items():
+                    t[k] = t.get(k, 0) + sign * v
+                out.append(({k: v for k, v in t.items() if v}, lc + sign * rc))
+        return out
+    if isinstance(expr, ast.Name) and depth < 6:
+        cands = set(dv.rd[at].get(expr.id, set()))
+        dead = dv.infeasible_defs(g.nodes[at])
+        out = []
+        for d in sorted(cands):
+            if d in dead or (d, expr.id) in _seen:
+                continue
+            others = cands - {d}
+            if others and g.witness_path(d, [at], avoid=others, exc=False) is None:
+                continue
+            da = g.nodes[d].ast
+            if isinstance(da, ast.Assign) and len(da.targets) == 1 and isinstance(da.targets[0], ast.Name) and da.targets[0].id == expr.id \
+                    and isinstance(da.value, (ast.BinOp, ast.Name, ast.Constant, ast.UnaryOp)):
+                sub = linear_forms(dv, da.value, d, depth + 1, _seen | {(d, expr.id)})
+            elif isinstance(da, ast.AugAssign) and isinstance(da.op, (ast.Add, ast.Sub)) and isinstance(da.target, ast.Name) and da.target.id == expr.id:
+                sub = linear_forms(dv, ast.BinOp(left=ast.Name(id=expr.id, ctx=ast.Load()), op=da.op, right=da.value), d, depth + 1, _seen | {(d, expr.id)})
+            else:
+                sub = [({unparse(expr) + f"@{d}": 1}, 0)]
+            if sub is None:
+                return None
+            out += sub
+            if len(out) > 16:
+                return None
+        return out or [({unparse(expr): 1}, 0)]
+    return [({unparse(expr): 1}, 0)]
+
+
 def delimited_flags(dv: DecoderView):
     """Boolean locals that say 'the candidate frame is delimited in the buffer'.  Every definition is
       * `search_result != -1` for an SOH-anchored text search, or
